@@ -8,7 +8,9 @@ xVol == <<120,46,118,111,108>>  yVol == <<121,46,118,111,108>>  zClm == <<122,46
 Places == {1, 2, 3}
 Universe == << aTxt, ATXT, bMap, bTxt >>
 Upper(s) == [i \in 1..Len(s) |-> IF s[i] >= 97 /\ s[i] <= 122 THEN s[i] - 32 ELSE s[i]]
-Queries == << aTxt, ATXT, DotSlash \o aTxt, bMap, Upper(bMap), DotSlash \o Upper(bMap), bTxt, Upper(bTxt), cTrk, Upper(cTrk), <<47>> \o aTxt, <<113>> >>
+SubDir == <<115, 117, 98, 47>>      \* "sub/" : an (empty) sub-directory of the resource directory; no archive member carries a directory component
+Queries == << aTxt, ATXT, DotSlash \o aTxt, bMap, Upper(bMap), DotSlash \o Upper(bMap), bTxt, Upper(bTxt), cTrk, Upper(cTrk), <<47>> \o aTxt, <<113>>,
+              SubDir \o aTxt, Upper(SubDir) \o ATXT, DotSlash \o SubDir \o bMap, <<111, 47>> \o cTrk >>
 ExtTxt == <<46,116,120,116>>   ExtMap == <<46,109,97,112>>
 Pat(k, t) == [kind |-> k, text |-> t]
 \* "root" and "s" occur in the directory part of the sandbox path but in no file name: a pattern evaluated on the path would match everything
